@@ -36,8 +36,8 @@ RULE = (
     "lexer configurations); distinct = distinct case JSON."
 )
 ASSUMPTIONS = [
-    "whole-line tags are followed by a line that contains a non-whitespace character (blank lines after a line statement are consumed by the "
-    "line-statement form only; DESIGN.md C13) and carry no trailing whitespace",
+    "a whole-line statement is never directly followed by a whitespace-only line (blank lines after a line statement are consumed by the "
+    "line-statement form only; DESIGN.md C13) and carries no trailing whitespace; blank lines BEFORE statements/comments are generated",
     "a line comment is compared with the block comment spelled  {# c +#}  (whole line) or  text {#- c +#}  (trailing), per the documented "
     "'up to the end of the line, excluding the newline' rule",
     "overlay steps override whole option groups (all six delimiters at once, or one prefix, or one whitespace flag)",
@@ -162,8 +162,11 @@ def _lines(case):
     _cmp(got_b, bexp, "block-tag form: output differs from the model", bsrc, plain)
     _cmp(got_l, lexp, "line-statement form: output differs from the model", lsrc, opts)
     kinds = {l[0] for l in case["lsk"]["lines"]}
+    lines = case["lsk"]["lines"]
+    blank_before = any(a[0] == "B" and b[0] in ("S", "C") for a, b in zip(lines, lines[1:]))
     tc = any(l[0] == "L" and l[3] is not None for l in case["lsk"]["lines"])
-    labels = ["b:lines", "b:syn:" + opts["syn"], "b:ls:" + opts["ls"]] + ["b:line:" + k for k in kinds] + (["b:trailing-comment"] if tc else [])
+    labels = ["b:lines", "b:syn:" + opts["syn"], "b:ls:" + opts["ls"]] + ["b:line:" + k for k in kinds] + (["b:trailing-comment"] if tc else []) + (
+        ["b:blank-before-statement"] if blank_before else [])
     return core.Outcome(ntags(lcsk) >= 2 and bool(kinds & {"S", "C"} or tc), labels)
 
 
@@ -357,8 +360,7 @@ def strategies(tier):
     sk_a = skel.skeletons(skel.ALPHA_X, max_segs=7, multiline=True, raw_lookalikes=False)
     sk_f = skel.skeletons(skel.ALPHA_X, kinds=("text", "text", "var", "block", "comment", "raw", "pair", "ownline", "ownline", "foreign"),
                           max_segs=7, multiline=True, foreign=True)
-    lsk = skel.line_skeletons(foreign=False)
-    lsk_f = skel.line_skeletons(foreign=True)
+    lsk_f = skel.line_skeletons(foreign=True, blank="before")
     spec = st.one_of(sk_f.map(lambda s: {"sk": s}), sk_f.map(lambda s: {"sk": s}), lsk_f.map(lambda l: {"lsk": l}))
     a = st.builds(lambda s, o: {"kind": "delims", "sk": s, "opts": o}, sk_a, opts)
     b = st.builds(lambda l, o: {"kind": "lines", "lsk": l, "opts": o}, lsk_f, lopts)
@@ -392,7 +394,7 @@ def run_shard(spec, ctx):
 
 
 def floors(total, tier):
-    need = ["a:delims", "b:line:S", "b:line:C", "b:trailing-comment", "c:line-form", "d:loader-checked", "d:step:syn", "d:step:ktn",
+    need = ["a:delims", "b:blank-before-statement", "b:line:S", "b:line:C", "b:trailing-comment", "c:line-form", "d:loader-checked", "d:step:syn", "d:step:ktn",
             "e:distinct>50", "e:mode:1", "e:mode:2", "e:changed:ls", "e:changed:ktn"]
     low = [k for k in need if total.labels.get(k, 0) < 20]
     return ("labels below floor of 20: %s" % low) if low else None
